@@ -6,11 +6,12 @@
   Explicit hypotheses (never axioms):
     `[Fact (Nat.Prime p)]`  primality of 2^255 − 19
     `G : EdwardsGroupLaw`   closure + associativity of the affine Edwards addition (needed to show comb = [a]B)
-    `SF : ScalarFacts`      five statements about unit scalar64's `Scalar` (from_bytes, reduce_from_wide_bytes, muladd,
-                            to_bytes, nibbles) in the shapes of its `Proofs.Scalar64.*_spec` theorems
-  Every theorem that uses `G`/`SF` is named `_partial`; `exchange` needs none of them and is unconditional.
+  (The scalar layer enters through `ScalarFacts`, which is a THEOREM: Proofs/Ed25519Inst.lean instantiates it from
+  unit scalar64's from_bytes/reduce_from_wide_bytes/muladd/to_bytes/nibbles theorems.)
+  Every theorem that uses `G` is named `_partial`; `exchange` needs neither hypothesis and is unconditional.
 -/
 import CxVerif.Proofs.Ed25519Exchange
+import CxVerif.Proofs.Ed25519Inst
 namespace Cx.Props.C13
 open Cx Cx.Spec Cx.Impl.Ed25519 Cx.Proofs.EdSpec Cx.Proofs.Ed25519Sign
 open Cx.Spec.Field25519 (p)
@@ -18,17 +19,19 @@ open Cx.Spec.Field25519 (p)
 set_option maxRecDepth 10000
 
 section partials
-variable [hp : Fact (Nat.Prime p)] (G : EdwardsGroupLaw) (SF : ScalarFacts)
-include G SF
+variable [hp : Fact (Nat.Prime p)] (G : EdwardsGroupLaw)
+include G
+
+local notation "SF" => Proofs.Ed25519Inst.scalarFacts
 
 /-- FULL STATEMENT: `keypair seed = (seed ‖ ENC([s]B), ENC([s]B))` with `s` the pruned SHA-512 half (§5.1.5).
-    PROVED under `Nat.Prime p`, `EdwardsGroupLaw`, `ScalarFacts`. -/
+    PROVED under `Nat.Prime p` and `EdwardsGroupLaw`. -/
 theorem keypair_is_rfc8032_partial (seed : Bytes) (hs : seed.length = 32) :
     keypair seed = some (Spec.Ed25519.keypair seed) :=
   haveI : Proofs.GeComb.GroupLawFact := ⟨G⟩; keypair_eq SF seed hs
 
 /-- FULL STATEMENT: `signature(M, keypair(seed).0) = R ‖ S` of §5.1.6 for every seed and message.
-    PROVED under the same three hypotheses. -/
+    PROVED under the same two hypotheses. -/
 theorem signature_is_rfc8032_partial (seed msg : Bytes) (hs : seed.length = 32) (hm : msg.length < 2 ^ 124) :
     signature msg (Spec.Ed25519.keypair seed).1 = some (Spec.Ed25519.sign seed msg) :=
   haveI : Proofs.GeComb.GroupLawFact := ⟨G⟩
@@ -37,8 +40,8 @@ theorem signature_is_rfc8032_partial (seed msg : Bytes) (hs : seed.length = 32) 
 /-- the two steps as the user runs them: `keypair` then `signature` -/
 theorem keypair_then_signature_partial (seed msg : Bytes) (hs : seed.length = 32) (hm : msg.length < 2 ^ 124) :
     (keypair seed).bind (fun kp => signature msg kp.1) = some (Spec.Ed25519.sign seed msg) := by
-  rw [keypair_is_rfc8032_partial G SF seed hs, Option.bind_some]
-  exact signature_is_rfc8032_partial G SF seed msg hs hm
+  rw [keypair_is_rfc8032_partial G seed hs, Option.bind_some]
+  exact signature_is_rfc8032_partial G seed msg hs hm
 
 /-- `signature` takes the public half of the keypair as given (it is hashed, not recomputed) -/
 theorem signature_with_any_public_half_partial (seed pk msg : Bytes) (hs : seed.length = 32) (hpk : pk.length = 32)
@@ -64,10 +67,10 @@ theorem signature_extended_of_expanded_seed_partial (seed msg : Bytes) (hs : see
     (hm : msg.length < 2 ^ 124) :
     (extended_secret seed).bind (fun ext => signature_extended msg ext)
       = signature msg (Spec.Ed25519.keypair seed).1 := by
-  rw [extended_secret_eq seed hs, Option.bind_some, signature_is_rfc8032_partial G SF seed msg hs hm]
+  rw [extended_secret_eq seed hs, Option.bind_some, signature_is_rfc8032_partial G seed msg hs hm]
   have hlt : leNat ((Spec.Ed25519.expandSeed seed).take 32) < 2 ^ 255 := by
     rw [expandSeed_take]; exact clamp_lt _ (by unfold Spec.Ed25519.H; simp [sha512_length])
-  rw [signature_extended_is_spec_partial G SF msg _ (expandSeed_length seed) hlt hm]
+  rw [signature_extended_is_spec_partial G msg _ (expandSeed_length seed) hlt hm]
   unfold Spec.Ed25519.signExtended Spec.Ed25519.sign Spec.Ed25519.extendedToPublic Spec.Ed25519.publicKey
     Spec.Ed25519.secretScalar Spec.Ed25519.noncePrefix
   rw [expandSeed_take, expandSeed_drop]
@@ -78,7 +81,7 @@ theorem extended_to_public_of_expanded_seed_partial (seed : Bytes) (hs : seed.le
   have hlt : leNat ((Spec.Ed25519.expandSeed seed).take 32) < 2 ^ 255 := by
     rw [expandSeed_take]; exact clamp_lt _ (by unfold Spec.Ed25519.H; simp [sha512_length])
   rw [extended_secret_eq seed hs, Option.bind_some,
-    extended_to_public_is_spec_partial G SF _ (expandSeed_length seed) hlt]
+    extended_to_public_is_spec_partial G _ (expandSeed_length seed) hlt]
   unfold Spec.Ed25519.extendedToPublic Spec.Ed25519.publicKey Spec.Ed25519.secretScalar
   rw [expandSeed_take]
 
